@@ -34,6 +34,7 @@ class Report:
         self.extra = {}
         self.assumptions = []
         self.nontrivial = set()
+        self.broken = []
 
     def rule(self, rid, text):
         self.rule_text[rid] = text
@@ -57,8 +58,9 @@ class Report:
     def require_count(self, rule, what, found, frozen):
         """vacuity guard: discovery must find at least the instances confirmed by reading"""
         if found < frozen:
-            raise AnalysisBroken('%s: %s: discovered %d instances, fewer than the %d confirmed by reading'
-                                 % (rule, what, found, frozen))
+            # deferred: a definite violation found elsewhere still takes precedence over 'analysis broken'
+            self.broken.append('%s: %s: discovered %d instances, fewer than the %d confirmed by reading'
+                               % (rule, what, found, frozen))
 
     def note(self, s):
         self.notes.append(s)
@@ -196,7 +198,12 @@ def main():
             for o in rep.obl:
                 print('replay: %s %s [%s] at %s -> %s: %s' % (o['rule'], o['function'], o['role'], o['where'],
                                                               o['verdict'], o['detail']))
-        return finish(rep, t0, seed, replay_only=bool(a.replay))
+        rc = finish(rep, t0, seed, replay_only=bool(a.replay))
+        if rc == 0 and rep.broken:
+            for b in rep.broken:
+                print('ANALYSIS-BROKEN property=%s: %s' % (a.pid, b))
+            return 2
+        return rc
     except AnalysisBroken as e:
         print('ANALYSIS-BROKEN property=%s: %s' % (a.pid, e))
         # obligations already decided before the analysis broke are still reported: a definite violation stays one
